@@ -46,6 +46,9 @@ class UserErr(Exception):
     pass
 
 
+PYKEYS = {0: 0, 1: -1, 2: -2, 3: 2**61 - 1, 4: 'four', 5: (5,)}
+
+
 def _spell(policy: str, own_enum, how: int):
     """the policy as a string, as the manager's own enum member, or as a member of an application's str enum with the same
     value (all three are accepted spellings: to_enum converts by value)"""
@@ -165,7 +168,8 @@ class Runtime:
             cids = [self.coro_cid.get(id(c), 999) for c, _ in m.queue]
             return cids, [self.keys.get(c, 0) for c in cids]
         if self.kind == 'dedup':
-            return [self.coro_cid.get(id(v[0]), 999) for v in m.queue.values()], list(m.queue.keys())
+            back = {v: k for k, v in PYKEYS.items()}
+            return [self.coro_cid.get(id(v[0]), 999) for v in m.queue.values()], [back.get(k, k) for k in m.queue.keys()]
         return [], []
 
     def view_tracked(self):
@@ -263,7 +267,9 @@ class Runtime:
         raised = None
         try:
             if self.kind == 'dedup':
-                ret = self.mgr.create_task(coro, key)
+                # the model's key numbers stand for arbitrary hashable keys; some of them collide under hash()
+                # (hash(-1) == hash(-2) == -2 in CPython, hash(2**61 - 1) == hash(0))
+                ret = self.mgr.create_task(coro, PYKEYS.get(key, key))
             else:
                 ret = self.mgr.create_task(coro)
         except Exception as e:  # noqa: BLE001   (a submission must not raise: judged by the oracle)
